@@ -24,3 +24,149 @@ fn kf10_flatten_completes_while_a_late_greeting_inner_is_pending() {
     let t = l.iter().position(|x| x == "sink<-T").unwrap();
     assert!(l[t..].iter().any(|x| x == "sink<-D1"), "expected data after the Terminate (finding KF-10): {l:?}");
 }
+
+use callbag::{combine, concat, share, Message};
+
+fn has(l: &[String], x: &str) -> bool {
+    l.iter().any(|y| y == x)
+}
+
+/// KF-1 (C05): combine counts a member's Error as a completion: the sink never hears the error.
+#[test]
+fn kf1_combine_swallows_a_member_error() {
+    let log = new_log();
+    let a = Puppet::<u32>::new("a", &log, true);
+    let b = Puppet::<u32>::new("b", &log, true);
+    let out: Arc<Source<(u32, u32)>> = Arc::new(combine!(a.source(), b.source()));
+    let s = Probe::<(u32, u32)>::new("sink", &log);
+    subscribe(&out, s.sink());
+    a.error();
+    let l = log_of(&log);
+    assert!(!has(&l, "sink<-E"), "finding KF-1 gone? {l:?}");
+    assert!(!has(&l, "b<-T"), "finding KF-1 gone (sibling disposed)? {l:?}");
+    b.end();
+    assert!(has(&log_of(&log), "sink<-T"), "the output completes normally after the swallowed error");
+}
+
+/// KF-2 (C04): combine never clears a member's talkback: an ended member is terminated again at disposal.
+#[test]
+fn kf2_combine_terminates_an_ended_member() {
+    let log = new_log();
+    let a = Puppet::<u32>::new("a", &log, true);
+    let b = Puppet::<u32>::new("b", &log, true);
+    let out: Arc<Source<(u32, u32)>> = Arc::new(combine!(a.source(), b.source()));
+    let s = Probe::<(u32, u32)>::new("sink", &log);
+    subscribe(&out, s.sink());
+    a.end();
+    s.terminate();
+    let l = log_of(&log);
+    assert!(has(&l, "a<-T") && has(&l, "b<-T"), "finding KF-2 gone? {l:?}");
+}
+
+/// KF-3 (C04): concat keeps the ended member's talkback until the next (late-greeting) member greets.
+#[test]
+fn kf3_concat_disposal_in_the_boundary_window_hits_the_dead_member() {
+    let log = new_log();
+    let a = Puppet::<u32>::new("a", &log, true);
+    let b = Puppet::<u32>::new("b", &log, false);
+    let out: Arc<Source<u32>> = Arc::new(concat!(a.source(), b.source()));
+    let s = Probe::<u32>::new("sink", &log);
+    subscribe(&out, s.sink());
+    a.end(); // b is subscribed, has not greeted yet
+    s.terminate();
+    let l = log_of(&log);
+    assert!(has(&l, "b<-subscribe") && has(&l, "a<-T") && !has(&l, "b<-T"), "finding KF-3 gone? {l:?}");
+}
+
+/// KF-4 (C04, C11): after a switch flatten's inner cell holds the disposed inner until the new inner greets.
+#[test]
+fn kf4_flatten_disposal_in_the_switch_window_hits_the_disposed_inner() {
+    let log = new_log();
+    let outer = Puppet::<Source<u32>>::new("outer", &log, true);
+    let i1 = Puppet::<u32>::new("i1", &log, true);
+    let i2 = Puppet::<u32>::new("i2", &log, false);
+    let out: Arc<Source<u32>> = Arc::new(flatten(outer.source()));
+    let s = Probe::<u32>::new("sink", &log);
+    subscribe(&out, s.sink());
+    outer.data(i1.source());
+    outer.data(i2.source()); // i1 is disposed, i2 subscribed but silent
+    s.terminate();
+    let l = log_of(&log);
+    let n = l.iter().filter(|x| *x == "i1<-T").count();
+    assert!(n == 2 && !has(&l, "i2<-T"), "finding KF-4 gone? {l:?}");
+}
+
+/// KF-5 (C02, C03): share fans out over a snapshot of the sink list.
+#[test]
+fn kf5_share_delivers_to_a_sink_detached_during_the_fan_out() {
+    let log = new_log();
+    let up = Puppet::<u32>::new("a", &log, true);
+    let out: Arc<Source<u32>> = Arc::new(share(up.source()));
+    let a = Probe::<u32>::new("A", &log);
+    let b = Probe::<u32>::new("B", &log);
+    subscribe(&out, a.sink());
+    subscribe(&out, b.sink());
+    {
+        let b = Arc::clone(&b);
+        *a.on_data.lock().unwrap() = Some(Box::new(move |_| b.terminate()));
+    }
+    up.data(1);
+    let l = log_of(&log);
+    assert!(has(&l, "B<-D1"), "finding KF-5 gone? {l:?}");
+}
+
+/// KF-6 (C17): with a late-greeting upstream, a later sink is greeted with a talkback that panics.
+#[test]
+fn kf6_share_later_sink_pull_before_upstream_greeting_panics() {
+    let log = new_log();
+    let up = Puppet::<u32>::new("a", &log, false);
+    let out: Arc<Source<u32>> = Arc::new(share(up.source()));
+    let a = Probe::<u32>::new("A", &log);
+    let b = Probe::<u32>::new("B", &log);
+    subscribe(&out, a.sink()); // upstream subscribed, silent
+    subscribe(&out, b.sink()); // B is greeted directly
+    assert!(has(&log_of(&log), "B<-H"));
+    std::panic::set_hook(Box::new(|_| {}));
+    let r = std::panic::catch_unwind(std::panic::AssertUnwindSafe(|| b.pull()));
+    let _ = std::panic::take_hook();
+    assert!(r.is_err(), "finding KF-6 gone?");
+}
+
+/// KF-8 (C04): share does not clear source_talkback when the upstream ends.
+#[test]
+fn kf8_share_pull_reaches_the_ended_first_subscription() {
+    let log = new_log();
+    let up = Puppet::<u32>::new("a", &log, true);
+    let out: Arc<Source<u32>> = Arc::new(share(up.source()));
+    let a = Probe::<u32>::new("A", &log);
+    subscribe(&out, a.sink());
+    up.end(); // first upstream subscription is over
+    up.set_greet_sync(false);
+    let b = Probe::<u32>::new("B", &log);
+    subscribe(&out, b.sink()); // second upstream subscription, not greeted yet
+    let c = Probe::<u32>::new("C", &log);
+    subscribe(&out, c.sink()); // greeted directly
+    c.pull();
+    let l = log_of(&log);
+    assert!(has(&l, "a<-subscribe#2") && has(&l, "C<-H") && has(&l, "a<-P"), "finding KF-8 gone? {l:?}");
+}
+
+/// KF-9 (C12): the sink list is cleared only after the terminal fan-out.
+#[test]
+fn kf9_share_reattach_inside_the_terminal_delivery_is_wiped() {
+    let log = new_log();
+    let up = Puppet::<u32>::new("a", &log, true);
+    let out: Arc<Source<u32>> = Arc::new(share(up.source()));
+    let a = Probe::<u32>::new("A", &log);
+    let n = Probe::<u32>::new("N", &log);
+    subscribe(&out, a.sink());
+    {
+        let out = Arc::clone(&out);
+        let n = Arc::clone(&n);
+        *a.on_terminate.lock().unwrap() = Some(Box::new(move |_| subscribe(&out, n.sink())));
+    }
+    up.end();
+    let l = log_of(&log);
+    assert!(has(&l, "N<-H") && !has(&l, "a<-subscribe#2"), "finding KF-9 gone? {l:?}");
+    let _ = Message::<u8, u8>::Pull;
+}
